@@ -218,6 +218,9 @@ func ParentMain(p Prop, tier string, seed int64, po ParentOpts) int {
 		n = runtime.NumCPU()
 	}
 	id := p.ID()
+	scratch, _ := os.MkdirTemp("", "verif-"+id+"-")
+	defer os.RemoveAll(scratch)
+	po.ExtraEnv = append(po.ExtraEnv, "VERIF_SCRATCH="+scratch)
 	results := make([]*workerResult, n)
 	var infra []string
 	var deaths []violRec
